@@ -115,7 +115,7 @@ func runC07(e *env) {
 	e.m.CaseFiles = append(e.m.CaseFiles, "cases_C07_sites")
 
 	// dynamic part
-	specs := corpusDeterminism()
+	specs := append(corpusDeterminism(), repoFixtures("repo-testsource-defs", "repo-sql-models")...)
 	n, reps := 8, 12
 	if e.thorough() {
 		n, reps = 120, 25
